@@ -65,6 +65,8 @@ type caseT struct {
 	Calls      []span            `json:"calls"`     // statement containing the call of each active frame, innermost first
 	CallOffs   []int             `json:"call_offs"` // offset of that call inside its file
 	Shape      string            `json:"shape"`
+
+	track []span // trivia.go: offsets to move along with the insertions (not part of the replay format)
 }
 
 func (c *caseT) src(file string) string {
@@ -580,6 +582,7 @@ func checkCaseL(c *caseT) {
 		genBug(c, fmt.Sprintf("program did not fail (direct=%v script=%v)", d.err, serr))
 		return
 	}
+	lastErrText = serr.Error()
 	res.Count("fail", c.Kind+"|"+c.Shape+"|"+c.Main, true)
 	res.Dist("kind:" + c.Kind)
 	for _, p := range strings.Split(c.Shape, " ") {
@@ -863,7 +866,8 @@ func main() {
 	}
 	rng := lib.NewRNG(f.Seed)
 	systematic(rng.Fork())
-	for _, c := range boundaryCases(rng.Fork()) {
+	boundary := boundaryCases(rng.Fork())
+	for _, c := range boundary {
 		checkCase(c)
 	}
 	n := f.Scale(2000, 80000)
@@ -878,6 +882,12 @@ func main() {
 	}
 	progenStatic(rng.Fork(), f.Scale(300, 6000))
 	sparseSrcpos(rng.Fork(), f.Scale(400, 20000))
+	// text the scanner skips, inserted into programs of every population above (trivia.go); forked last so that the
+	// cases of the streams above are the same as before
+	trng := rng.Fork()
+	triviaSystematic(trng.Fork())
+	triviaWholeFile(trng.Fork(), f.Scale(24, 600))
+	triviaRandom(trng.Fork(), f.Scale(240, 12000), boundary)
 	res.Extra = map[string]interface{}{"binop_kinds": len(binopKinds), "expr_kinds": len(exprKinds()), "stmt_kinds": len(stmtKinds())}
 	res.Write(f.Out)
 }
